@@ -91,9 +91,9 @@ func Setup(env *runner.Env) error {
 // NumMutants is the number of generated inputs per tier.
 func NumMutants(tier string) int {
 	if tier == "thorough" {
-		return 1500000
+		return 3000000
 	}
-	return 40000
+	return 120000
 }
 
 // NumInputs is the size of the shared case list.
